@@ -53,7 +53,7 @@ Proof. exact recs_never_suppressed. Qed.
 (* literals the model repeats from the source are the ones the translator extracts from the current source (gen/Tables.v) *)
 From VGen Require Import Tables.
 From VModel Require Import Terrapin.
-From VProofs Require Import TieProofs.
+From VProofs Require Import TieC04.
 Theorem c04_tie_terrapin_markers : [marker_c; marker_s] = src_pp_markers.
 Proof. exact tie_terrapin_markers. Qed.
 Theorem c04_tie_advisory : advisory_prefix = src_advisory_prefix /\ advisory_suffix = src_advisory_suffix.
